@@ -51,6 +51,11 @@ class Gen:
     def string_bytes(self):
         r = self.rng
         c = r.random()
+        if r.random() < 0.06:
+            # text that codecs, `str` methods and line handling treat specially: a leading byte-order
+            # mark, Unicode line/paragraph separators, NEL, NUL, a trailing newline or blanks
+            return r.choice(["\ufeffclient-1", "\ufeff", "a\u2028b", "\u2029", "x\u0085y", "line\n", " padded ", "\x00", "\r\n",
+                             "\ufeff\ufeff", "tab\t"]).encode()
         if c < 0.8:
             n = r.choice(STR_LENS_COMMON)
         elif c < 0.97 or not self.big:
